@@ -242,6 +242,23 @@ Proof.
 Qed.
 Print Assumptions C15_generated_code_is_model.
 
+(* ... and so are the loops themselves (wave 4): Way.ApplyUpdatesUpTo and Relation.ApplyUpdatesUpTo
+   (the whole loop with the notApplied slice and the error return), Way.LineString and
+   Way.LineStringAt (three loops, the last an in-place compaction).  The two sorts are
+   sort.Sort on the two Less types.  With C15_generated_code_is_model every function the
+   theorems above talk about — except the consumer mputil.Group — is regenerated from source. *)
+Theorem C15_generated_loops_are_model :
+  (forall ns us t, gen_way_apply_updates_up_to ns us t = way_apply t ns us) /\
+  (forall ms us t, gen_rel_apply_updates_up_to ms us t = rel_apply t ms us) /\
+  (forall ns, gen_way_line_string ns = line_string ns) /\
+  (forall ns us t, gen_way_line_string_at ns us t = line_string_at t ns us) /\
+  (calls_Updates_SortByIndex, calls_Updates_SortByTimestamp) = sort_calls_expected.
+Proof.
+  split; [exact gen_way_apply_updates_up_to_ok|]. split; [exact gen_rel_apply_updates_up_to_ok|].
+  split; [exact gen_way_line_string_ok|]. split; [exact gen_way_line_string_at_ok|exact gen_sort_calls].
+Qed.
+Print Assumptions C15_generated_loops_are_model.
+
 Theorem C15_loop_iteration_is_generated_apply_update :
   (forall t u r ns pend,
      apply_loop upd_node t (u :: r) ns pend =
